@@ -653,6 +653,14 @@ fn pke_case<B: Backend>(cx: &mut Ctx, rng: &mut Prng, recipients: &[keys::Pair])
                     Ok(blob) => {
                         let text = format!("{hdr}{}", crate::b64::enc(&blob));
                         let sk: Key<B::V, PkeSecret> = key_from_bytes(&r.secret).unwrap();
+                        {
+                            // the same key object refuses a corrupted copy first
+                            let mut bad = blob.clone();
+                            let n = bad.len();
+                            bad[n - 1] ^= 0x01;
+                            let bt = format!("{hdr}{}", crate::b64::enc(&bad));
+                            let _ = catch_unwind(AssertUnwindSafe(|| SealedKey::<B::V>::from_str(&bt).and_then(|s| s.unseal(&sk)).is_ok()));
+                        }
                         let rr = catch_unwind(AssertUnwindSafe(|| SealedKey::<B::V>::from_str(&text).and_then(|s| s.unseal(&sk)).map(|k| key_bytes(&k))));
                         match rr {
                             Ok(Ok(kb)) => cx.emit("reference", "accepted-same", kb == pdk, json!({"accepted": true, "variant": k, "c_leading_zero": B::VER == 1 && blob[80] == 0,
